@@ -9,6 +9,11 @@ import (
 )
 
 func (e *kvElection) watchLoop(ctx context.Context) {
+	// A follower never gives up: when the watch cannot be opened, or its channel is
+	// closed, the loop carries on with the periodic check alone (updates stays nil,
+	// which blocks that select case for good).
+	var updates func() <-chan Entry
+
 	watcher, err := e.kv.Watch(e.key)
 	if err != nil {
 		log := e.getLogger()
@@ -18,16 +23,18 @@ func (e *kvElection) watchLoop(ctx context.Context) {
 				zap.String("key", e.key),
 			)...,
 		)
-		return
-	}
-	defer watcher.Stop()
+		updates = func() <-chan Entry { return nil }
+	} else {
+		defer watcher.Stop()
+		updates = watcher.Updates
 
-	log := e.getLogger()
-	log.Debug("watch_started",
-		append(e.logWithContext(ctx),
-			zap.String("key", e.key),
-		)...,
-	)
+		log := e.getLogger()
+		log.Debug("watch_started",
+			append(e.logWithContext(ctx),
+				zap.String("key", e.key),
+			)...,
+		)
+	}
 
 	checkTicker := time.NewTicker(500 * time.Millisecond)
 	defer checkTicker.Stop()
@@ -36,7 +43,7 @@ func (e *kvElection) watchLoop(ctx context.Context) {
 		select {
 		case <-ctx.Done():
 			return
-		case entry, ok := <-watcher.Updates():
+		case entry, ok := <-updates():
 			if !ok {
 				log := e.getLogger()
 				log.Debug("watch_closed",
@@ -47,7 +54,8 @@ func (e *kvElection) watchLoop(ctx context.Context) {
 				if !e.IsLeader() {
 					go e.checkKeyAndReelect(ctx)
 				}
-				return
+				updates = func() <-chan Entry { return nil }
+				continue
 			}
 			e.handleWatchEvent(entry)
 		case <-checkTicker.C:
